@@ -121,3 +121,92 @@ Example C08_conf_info_nonvacuous :
   c_confinfo c = [4; 1; 65; 66; 2; 1; 72; 1] ++ repeat 77 70 /\ length (c_confinfo c) = 78%nat.
 Proof. vm_compute. split; reflexivity. Qed.
 Print Assumptions C08_conf_info_nonvacuous.
+
+(* ================= C08 at every point of every history (tie to C07) =================
+   The statements above are about one step from an arbitrary state r with the structural premise rnode_wf r.  Spec/IsoReachSpec.v: that
+   premise holds after every admissible history (all node operations and all public application calls, Model/ApiDefs.v) from every state
+   satisfying the C07 invariant (WF, r_oob = false, quiet: Spec/SafeSpec.v), in particular from every cold node, for every group function
+   reaction satisfying the C07 contract gf_ok; hence the answer statement applies in every reachable state. *)
+From Coq Require Import Lia.
+From N2kV Require Import Model.ApiDefs Spec.SafeSpec Spec.ApiSafeSpec Spec.IsoReachSpec Proofs.SafeProofsD Proofs.GroupFnSafe Proofs.IsoReachProofs.
+Theorem C08_reachable_wf : iso_reachable_wf_stmt.  Proof. exact iso_reachable_wf. Qed.
+Print Assumptions C08_reachable_wf.
+Theorem C08_reachable_wf_cold : iso_reachable_wf_cold_stmt.  Proof. exact iso_reachable_wf_cold. Qed.
+Print Assumptions C08_reachable_wf_cold.
+Theorem C08_addressed_answer_is_c08 : addressed_answer_is_c08_stmt.  Proof. exact addressed_answer_is_c08. Qed.
+Print Assumptions C08_addressed_answer_is_c08.
+Theorem C08_addressed_answered_reachable : iso_addressed_answered_reachable_stmt.  Proof. exact iso_addressed_answered_reachable. Qed.
+Print Assumptions C08_addressed_answered_reachable.
+Theorem C08_addressed_answered_reachable_prefix : iso_addressed_answered_reachable_prefix_stmt.  Proof. exact iso_addressed_answered_reachable_prefix. Qed.
+Print Assumptions C08_addressed_answered_reachable_prefix.
+
+(* ---------- non-vacuity: the two devices of ex2 as a COLD node (ListenAndNode, not opened, send buffer 40, 5 slots) and a history with
+   public calls (SendProductInformation before Open, SetDeviceInformationInstances), clock ticks, ParseMessages, a received frame (a
+   broadcast ISO request for the address claim from 50, answered by both devices), SendMsg and SendFrames ---------- *)
+Definition ex_cold : rnode :=
+  cold_node true 2 5000 40 5 no_lists [mk_dev true 22 13835058055282163713 [129029]; mk_dev true 23 13835058055282163714 []] [[127250]; []]
+    (ex_cfg (Some [129029]) ex_prod ex_conf).
+Definition tx_ids (evs:list (list event)) : list (list Z) :=
+  map (flat_map (fun e => match e with EvTx id _ _ true => [id] | _ => [] end)) evs.
+Definition ex_reach_ops : list xop :=
+  [XApi (ASendProd 0);
+   XBase RPoll; XBase (RBase (OTick 1)); XBase RPoll; XBase (RBase (OTick 201)); XBase RPoll; XBase (RBase (OTick 251)); XBase RPoll;
+   XBase (RRx {| r_id := 418053938; r_len := 3; r_buf := [0; 238; 0; 255; 255; 255; 255; 255] |}); XBase RPoll;
+   XApi (ASetInstances 1 1 2 3);
+   XBase (RBase (OSend 0 {| m_pri := 6; m_pgn := 127250; m_src := 0; m_dst := 255; m_data := [1; 2; 3; 4; 5; 6; 7; 8]; m_tp := false |}));
+   XBase (RBase OFlush)].
+
+Lemma ex_reach_history : c07_history gf_lib 2 5 40 ex_cold ex_reach_ops.
+Proof.
+  destruct (cold_node_inv true 2 5000 40 5 no_lists [mk_dev true 22 13835058055282163713 [129029]; mk_dev true 23 13835058055282163714 []]
+              [[127250]; []] (ex_cfg (Some [129029]) ex_prod ex_conf)) as (HW & Ho & HQ);
+    [reflexivity | repeat constructor; unfold dev_ok; simpl; lia | lia |].
+  refine (conj gf_lib_ok (conj HW (conj Ho (conj HQ (conj _ _))))); [|left; lia].
+  unfold ex_reach_ops. repeat (constructor; try (simpl; unfold u8_ok, byte_ok; lia)).
+Qed.
+Print Assumptions ex_reach_history.
+
+(* the reached state: both devices on the bus at 22 / 23, accepting driver, empty queue: the local premises of the answer statement hold
+   for device 1 (and 0), and 418053938 is the identifier of a request (59904) from 50 to everybody *)
+Example C08_reachable_nonvacuous :
+  let r := fst (xrun gf_lib ex_cold ex_reach_ops) in
+  c07_history gf_lib 2 5 40 ex_cold ex_reach_ops /\
+  on_bus (rn r) 1 /\ on_bus (rn r) 0 /\ driver_accepts (rn r) /\ protocol_pgns_single (n_pgn (rn r)) /\ info_fits (r_cfg r) /\
+  config_info_present (r_cfg r) 126998 /\ handler_accepts (r_cfg r) 129029 = true /\ handler_accepts (r_cfg r) 127250 = false /\
+  can_id_to_n2k 418053938 = (6, 59904, 50, 255) /\
+  map d_src (n_devs (rn r)) = [22; 23] /\ d_name (get_dev (rn r) 1) <> 13835058055282163714 /\
+  tx_ids (snd (xrun gf_lib ex_cold ex_reach_ops)) =
+    [[]; []; []; []; []; [to_can_id 6 60928 22 255; to_can_id 6 60928 23 255]; []; repeat (to_can_id 6 126996 22 255) 20; [];
+     [to_can_id 6 60928 22 255; to_can_id 6 60928 23 255]; []; [to_can_id 6 127250 22 255]; []].
+Proof.
+  cbv zeta. split; [exact ex_reach_history|].
+  unfold on_bus, driver_accepts, protocol_pgns_single, info_fits, config_info_present, ring_wf.
+  repeat match goal with |- _ /\ _ => split end;
+    try (vm_compute; first [reflexivity | discriminate | (left; reflexivity) | (right; reflexivity)]).
+  all: apply Nat.leb_le; vm_compute; reflexivity.
+Qed.
+Print Assumptions C08_reachable_nonvacuous.
+
+(* the theorem applied to this history: the addressed requests to device 1 in the reached state *)
+Example C08_reachable_instance :
+  let r := fst (xrun gf_lib ex_cold ex_reach_ops) in
+  positive_answer r 50 126996 1 (respond_iso_request r 50 true 126996 1) /\
+  positive_answer r 50 126998 1 (respond_iso_request r 50 true 126998 1) /\
+  snd (respond_iso_request r 50 true 129029 1) = [EvNote 1129029] /\
+  (exists ans, snd (respond_iso_request r 50 true 127250 1) = pending_flush (rn r) ++ ans /\
+               single_frame ans 6 59392 (d_src (get_dev (rn r) 1)) 50 (ref_nak 127250)).
+Proof.
+  pose proof C08_reachable_nonvacuous as NV. cbv zeta in NV. destruct NV as (H & B1 & _ & D & P & F & C & HA & HN & _).
+  pose proof (C08_addressed_answered_reachable gf_lib 2%nat 5%nat 40 ex_cold ex_reach_ops H 50) as T.
+  cbv zeta. cbv zeta in T. set (r := fst (xrun gf_lib ex_cold ex_reach_ops)) in *. clearbody r.
+  assert (T' : forall p, 0 <= p < 2 ^ 24 -> addressed_answer r 50 p 1) by (intros p Hp; apply T; auto; lia).
+  clear T. unfold addressed_answer in T'. cbv zeta in T'.
+  destruct (T' 126996 ltac:(lia)) as (A1 & _ & _). destruct (T' 126998 ltac:(lia)) as (A2 & _ & _).
+  destruct (T' 129029 ltac:(lia)) as (_ & A3 & _). destruct (T' 127250 ltac:(lia)) as (_ & _ & A4).
+  split; [|split; [|split]].
+  - apply A1; [reflexivity|]. unfold config_info_present. intros E; discriminate E.
+  - apply A2; [reflexivity|exact C].
+  - apply A3; [reflexivity|exact HA].
+  - destruct (A4 eq_refl HN) as (ans & E1 & _ & E2). exists ans; auto.
+Qed.
+Print Assumptions C08_reachable_instance.
